@@ -255,17 +255,85 @@ func runFastaRoute(c *Case, kind string) result {
 		}
 		return result{out: strings.Join(rows, "\n") + "\n", status: "ok"}
 	default: // samvar-toma: reference + the --pad rows in one alignment
-		res := safeRun(30*time.Second, func() (string, error) {
-			var out bytes.Buffer
-			err := sam.ToMultiAlign(strings.NewReader(txt), &out, -1, -1, -1, true, 2)
-			return out.String(), err
-		})
+		// a query that reaches from the first to the last reference base has the same row without --pad (what lies between
+		// its first and last aligned base is 'N' there too): such rows are taken from a run without --pad
+		run := func(pad bool) result {
+			return safeRun(30*time.Second, func() (string, error) {
+				var out bytes.Buffer
+				err := sam.ToMultiAlign(strings.NewReader(txt), &out, -1, -1, -1, pad, 2)
+				return out.String(), err
+			})
+		}
+		res := run(true)
 		if res.status != "ok" {
 			return res
+		}
+		if covers := queriesCoveringBothEnds(recs, len(c.Get("ref"))); len(covers) > 0 {
+			plain := run(false)
+			if plain.status != "ok" {
+				return plain
+			}
+			pr, qr := strings.Split(strings.TrimPrefix(res.out, ">"), "\n>"), strings.Split(strings.TrimPrefix(plain.out, ">"), "\n>")
+			if len(pr) == len(qr) {
+				for k := range pr {
+					if covers[strings.SplitN(pr[k], "\n", 2)[0]] {
+						pr[k] = strings.TrimSuffix(qr[k], "\n")
+						if k == len(pr)-1 {
+							pr[k] += "\n"
+						}
+					}
+				}
+				res.out = ">" + strings.Join(pr, "\n>")
+				c.Tag("toma-rows-without-pad")
+			}
 		}
 		msa := ">" + c.Get("rname") + "\n" + strings.ToUpper(c.Get("ref")) + "\n" + res.out
 		return variantsOnFasta(c, msa, c.Get("rname"))
 	}
+}
+
+// queriesCoveringBothEnds: the query names (occurring in one block only) that have a record aligning a base to reference
+// position 1 and one aligning a base to the last position
+func queriesCoveringBothEnds(recs []samRec, L int) map[string]bool {
+	first := map[string]bool{}
+	last := map[string]bool{}
+	var names []string
+	for _, rec := range recs {
+		if rec.flag&(4|256) != 0 {
+			continue
+		}
+		if _, ok := first[rec.name]; !ok {
+			names = append(names, rec.name)
+			first[rec.name], last[rec.name] = false, false
+		}
+		ops := parseCigarOps(rec.cigar)
+		p := rec.pos // 1-based position of the next reference base
+		for _, o := range ops {
+			switch {
+			case strings.IndexByte("M=X", o.op) >= 0:
+				if p == 1 {
+					first[rec.name] = true
+				}
+				if p+o.n-1 == L {
+					last[rec.name] = true
+				}
+				p += o.n
+			case o.op == 'D' || o.op == 'N':
+				p += o.n
+			}
+		}
+	}
+	out := map[string]bool{}
+	blocks := map[string]int{}
+	for _, n := range blockNames(recs) {
+		blocks[n]++
+	}
+	for _, n := range names {
+		if first[n] && last[n] && blocks[n] == 1 {
+			out[n] = true
+		}
+	}
+	return out
 }
 
 func init() {
